@@ -243,15 +243,18 @@ def _sccs(nodes: dict):
     return comp
 
 
+MAX_TRIPLE_EDGES = 90  # the triple product grows with the cube: 90 edges are decided in about a second
+
+
 def polynomial_ambiguity(pattern, flags: int = 0):
     """IDA (Weber & Seidl): two different loops, the second reachable from the first, that can both spell the word that also leads
     from the first to the second (`\\S+.*x`: a run of n letters can be divided between the two repeats in n ways, and a failing
     match tries them all: quadratic time). Decided on the triple product of the epsilon-free automaton: some (p, p, q), p != q,
-    reaches (p, q, q). None when there is no such pair; otherwise a witness description. Patterns with more than 40 character
+    reaches (p, q, q). None when there is no such pair; otherwise a witness description. Patterns with more than MAX_TRIPLE_EDGES character
     edges are returned as undecided (the triple product grows with the cube)."""
     E, succ = _edges_and_succ(pattern, flags)
     n = len(E)
-    if n > 40:
+    if n > MAX_TRIPLE_EDGES:
         raise Undecided("pattern too large for the triple product")
     on_cycle = set()
     # edges that can reach themselves
